@@ -19,7 +19,8 @@ RULE = ("architectures {FCN, Harmonic_FCN, Polynomial_FCN(+res), QRES, DeepRitzN
         "<= 3 variables x output dim {1,2}; for each: every permutation of the presented variable order, rows alone, permuted "
         "rows, batch shapes (6,), (2,3), (3,2,1); distinct by (architecture, input space, output dim)")
 ASSUMPTIONS = ["weights from a fixed torch.manual_seed per configuration", "outputs compared with rtol/atol 1e-6 (same float32 operations)"]
-BOUNDS = {"quick": {"max_vars": 3, "hidden": [[3], [3, 2]]}, "thorough": {"max_vars": 3, "hidden": [[3], [3, 2], [4, 3, 2]]}}
+BOUNDS = {"quick": {"max_vars": 3, "names": ["x", "t", "p"], "hidden": [[3], [3, 2]]},
+          "thorough": {"max_vars": 4, "names": ["x", "t", "p", "y"], "hidden": [[3], [3, 2], [4, 3, 2], [1], [2, 1, 1]]}}
 ITEM_LIMIT = {"quick": 900, "thorough": 3600}
 
 VARS = {"x": 2, "t": 1, "p": 1, "y": 2}
@@ -32,7 +33,7 @@ def items(tier):
     out = []
     for arch in ARCHS:
         for k in range(1, BOUNDS[tier]["max_vars"] + 1):
-            for sel in itertools.permutations(["x", "t", "p"], k):
+            for sel in itertools.permutations(BOUNDS[tier]["names"], k):
                 out.append({"name": "%s|%s" % (arch, "".join(sel)), "arch": arch, "space": list(sel), "tier": tier, "cost": k})
     return out
 
